@@ -64,6 +64,20 @@ missed = {
  "C02-5": "exit 2 at first (reflect.Value.IsZero had no engine model); model added, and the condition kinds gained zero struct, pointer to it, nil slice, nil map, nil pointer",
  "C02-6": "missed at first: directives were always written without a gap before '('; blank / tab / newline gaps added for @if, @elseif, @breakIf, @continueIf",
  "C15-5": "engine crashed into a nil generator at first (math/rand.New returned nil in the model); rand.New now yields a generator whose draws read and write its state cell, so a generator shared by two calls is a conflicting access; page with shuffle() added",
+ "C02-7": "missed at first: every ternary stood alone; HarnessC02Chain adds unparenthesised chains a ? x : b ? y : z (also with a falsy chosen value)",
+ "C02-8": "missed at first: conditions were identifiers; HarnessC02Chain uses array literals with a failing later element as conditions of @elseif, the ternary and @breakIf",
+ "C04-7": "caught by C01 (Float) as delivered; C04 missed it at first because no value was copied into a nested block and changed there; HarnessC04Alias added (floats, integers, arrays, object properties, loop elements)",
+ "C04-8": "missed at first: no scope kind was a component body; HarnessC04Component added (uses with and without arguments, inside @each/@if; assigned names, argument names, page and data variables of the same name)",
+ "C05-8": "missed at first (C19Splice sees the token change, C05 did not): no text was glued directly behind @else/@break/@continue; HarnessC05Inner added",
+ "C06-8": "missed at first: insert bodies never assigned a variable that the layout reads later; HarnessC06InPlace added (also across loop passes)",
+ "C07-8": "missed at first: the missing component had a fixed alphabetic name; its name now holds one symbolic printable byte, '%' included",
+ "C13-8": "missed at first: paths never held a '%'; HarnessC13Files chooses among directory names 'templates', 't%20x', '100%d'",
+ "C14-8": "same change as C16-4/C16-8 (caught by C16); C14 missed it at first because nothing failed between the compared renders; an optional earlier render that fails inside a loop pass added",
+ "C17-8": "missed at first: no failing page had a '%' in its error message; page pct ({{ 7 % \"3\" }}) added",
+ "C18-7": "missed at first: the layout used no component of its own; it now does, and that component is a fourth fault location",
+ "C18-8": "missed at first: EvaluateFile ran in a fresh process state; it is now optionally preceded by a successful or a failed NewTemplate",
+ "C20-7": "missed at first: custom functions never changed what they were handed; HarnessC20Values registers one that overwrites receiver, argument and nested slices and calls it twice on one array variable",
+ "C20-8": "missed at first: no custom function returned a nil slice; HarnessC20Values checks len(), @each/@else, truthiness and re-assignment of such a result",
 }
 rows = []
 for d in sorted(glob.glob(os.path.join(here, "seeded", "C*-*"))):
